@@ -4,7 +4,7 @@ package replication
 // Entry point of the shared replication world (../C01/world_test.go) with the C02 oracle.
 
 import (
-	"os"
+	"fmt"
 	"testing"
 
 	"github.com/WuKongIM/WuKongIM/pkg/zzverif/ev"
@@ -23,23 +23,39 @@ func TestVerifC02(t *testing.T) {
 	res := vwRun(r, "replication-world/C02/deep", o, st, ev.Pick(r, 4, 5), ev.Pick(r, 1, 1), note)
 	res2 := vwRun(r, "replication-world/C02/faulty", o, st, ev.Pick(r, 3, 4), ev.Pick(r, 2, 2), note)
 	res.States += res2.States
-	if r.Thorough() || os.Getenv("VERIF_DEBUG_MDB") == "1" {
-		pool, err := newVWMDBPool()
-		if err == nil {
-			err = pool.selfTest()
+	// MessageDB-backed boxes: every node's durable log is a real channelstore.MessageDBFactory
+	// store (pkg/db/message exact-base append incl. its sequenced fast path for
+	// ServerAllocatedMessageIDs, ReplaceRecoverySuffix) on an in-memory vfs.
+	pool, err := newVWMDBPool()
+	if err == nil {
+		err = pool.selfTest()
+	}
+	if err != nil {
+		r.HarnessError("MessageDB-backed world unavailable: %v", err)
+	} else {
+		om := o
+		om.backend = pool.lease
+		om.evOrder = false
+		om.cmds = 3
+		mnote := note + "; every node's durable log is a real MessageDB (pkg/db/message on Pebble, in-memory vfs) channel store; c1, c2 are proposed with ServerAllocatedMessageIDs, c3 without"
+		mdb := vwRun(r, "replication-world/C02/messagedb", om, st, 3, ev.Pick(r, 0, 1), mnote)
+		// seeded box: the old leader (node 1) is cut off holding an unreplicated
+		// one-entry tail above the acknowledged prefix that nodes 2 and 3 hold.
+		os2 := om
+		os2.prefix = []string{"commit:1:c1", "deliver:1>2:c1@0/t1.1.1", "down:1", "commit:1:c3"}
+		os2.maxOutages = 1
+		if !r.Thorough() { // quick: commits, next-term / same installs, trailing delivery, up
+			os2.maxCrashes, os2.maxInstalls, os2.evRepair, os2.evCrashReplace = 0, 1, false, false
 		}
-		if err != nil {
-			r.HarnessError("MessageDB-backed world unavailable: %v", err)
-		} else {
-			om := o
-			om.backend = pool.lease
-			om.evOrder = false
-			mdb := vwRunWorkers(r, "replication-world/C02/messagedb", om, st, 3, 1, 8, note+"; every node's durable log is a real MessageDB (pkg/db/message on Pebble, tmpfs) channel store")
-			r.Guard("messagedb-world-states", mdb.States >= 100, "%d states explored over MessageDB-backed stores", mdb.States)
-		}
-		if pool != nil {
-			pool.close()
-		}
+		seeded := vwRun(r, "replication-world/C02/messagedb-deposed-tail", os2, st, 4, ev.Pick(r, 0, 1),
+			mnote+"; initial state = after "+fmt.Sprint(os2.prefix)+" (deposed leader cut off with an unreplicated tail of the length of a barrier)")
+		r.Guard("messagedb-world-states", mdb.States >= 50 && seeded.States >= 100, "%d + %d states explored over MessageDB-backed stores", mdb.States, seeded.States)
+		r.Guard("messagedb-sequenced-fast-path", st.saAtFrontier.Load() >= 10 && st.saAtFrontierDivergentTail.Load() >= 1,
+			"%d ServerAllocatedMessageIDs proposals reached a follower exactly at its LEO, %d of them a follower whose equal-length tail is not the proposal's predecessor",
+			st.saAtFrontier.Load(), st.saAtFrontierDivergentTail.Load())
+	}
+	if pool != nil {
+		pool.close()
 	}
 	vwAssumptions(r)
 	vwCounters(r, st)
